@@ -82,6 +82,28 @@ func c05Executor(c *Ctx) {
 				bad("an execution whose permit was refused or whose wait was cancelled must not run innerFn")
 				continue
 			}
+			// a wait that ended because the execution was cancelled reports the cancellation's cause (the stored cancel
+			// result: the timeout's, ErrExecutionCanceled): the error the wait itself returns is read from the copy of
+			// the execution the limiter runs on, which a cancellation of the root does not reach (D8)
+			ct := eventsWhere(p, func(e *Event) bool { return isCall(e, "IsCanceledWithResult") && e.Recv == exec && e.Idx > acq[0].Idx })
+			if len(ct) != 1 {
+				bad("after a failed acquire the wrapper must test whether the execution was cancelled (IsCanceledWithResult), so that the cause of the cancellation is what the caller receives")
+				continue
+			}
+			switch triAnd(p.State.Facts.Truth(ts, ct[0].Res[0]), p.State.Facts.Truth(ts, ts.Cmp("!=", ct[0].Res[1], ts.Nil(nil)))) {
+			case triT:
+				if p.Exit == ExitReturn && p.Rets[0] != ct[0].Res[1] {
+					bad("a wait ended by cancellation must return the execution's cancel result")
+				}
+				if len(ls) != 0 {
+					bad("OnRateLimitExceeded must not fire for a cancelled wait")
+				}
+				continue
+			case triF:
+			default:
+				bad("the outcome of a failed acquire does not depend on whether the execution was cancelled")
+				continue
+			}
 			if p.Exit == ExitReturn && !isFailureAlloc(ev, p, p.Rets[0], func(e *T) bool { return e == acq[0].Res[0] }) {
 				bad("a refused execution must fail with the acquire's error (ErrExceeded or the cancellation cause)")
 			}
